@@ -110,7 +110,11 @@ def check_claim(ctx, model):
     val_ok = all(any(o.kind == "call" and o.a.endswith("state::query_claimable") and o.proj and o.proj[-1] == "id" for o in arg_origins(v, sb, t, 3)) for sb, t in ls)
     ctx.ob("C09-D2", "%s|cursor-saved" % CLAIM, ok and key_ok and val_ok,
            "LAST_CLAIMED_EPOCH.save on every success path: %s; key = sender: %s; value = id of a claimable epoch: %s" % (ok, key_ok, val_ok), v.where())
-    # the newest epoch: index 0 of the claimable list
+    # the newest epoch: index 0 of the claimable list (query_claimable returns newest first)
+    from .C03 import _array_index
+    for sb, t in ls:
+        idx = _array_index(v, t["args"][3], v.at_term(sb))
+        ctx.ob("C09-D2", "%s|cursor-is-newest-claimable" % CLAIM, idx == 0, "cursor taken from claimable_epochs[%s] (must be [0], the newest)" % idx, v.where(sb))
     check_messages_attached(ctx, model, CLAIM, rule="C09-D1")
 
 
